@@ -1676,7 +1676,12 @@ func (p *parser) hoistSymbols(scope *js_ast.Scope) {
 					// Is this unbound (i.e. a global access) or also hoisted?
 					if existingSymbol.Kind == ast.SymbolUnbound || existingSymbol.Kind == ast.SymbolHoisted ||
 						(existingSymbol.Kind.IsFunction() && (s.Kind == js_ast.ScopeEntry || s.Kind == js_ast.ScopeFunctionBody)) {
-						// Silently merge this symbol into the existing symbol
+						// Silently merge this symbol into the existing symbol. If this
+						// symbol was hoisted past a "with" statement, the existing symbol
+						// now stands for it and must not be renamed either.
+						if symbol.Flags.Has(ast.MustNotBeRenamed) {
+							existingSymbol.Flags |= ast.MustNotBeRenamed
+						}
 						symbol.Link = existingMember.Ref
 						s.Members[symbol.OriginalName] = existingMember
 						continue nextMember
